@@ -102,6 +102,20 @@ CLAIMS = {
         technique="table agreement: reachability under fixed discriminants over clang CFGs, evaluated constants, must-fact "
                   "dominance for guards, symbolic path walk of the name suffix writer",
         design="5 C09"),
+    "C08": dict(
+        text="Clause-level structural decision for upstream names: the space build_hostname reserves is evaluated from the "
+             "function's own expressions (C integer semantics, unsigned wrap-around) over the complete table of hostname limits "
+             "100..255 x domain lengths 3..min(128, L-24) x call sites (header length, capacity): the name never exceeds L nor 253 "
+             "characters (255 bytes on the wire), the first label never exceeds 63, and at least two encoded characters fit; one "
+             "dot interval is used everywhere; the limit is clamped to 255; putname refuses labels over 63 and names that do not "
+             "fit; for every message kind the client's header length and codec equal what the server's parser uses (both letter "
+             "cases) and the codec-switch numbers select the same codec on both ends; the reported length is the encoder's "
+             "consumed count and the packet offset advances only by it, under the ack match; extraction exactness is discharged "
+             "through the C07 codec obligations, re-evaluated here. Not decided: that inline_dotify's copy loop places the dots "
+             "where its constants say.",
+        technique="constant evaluation of the builder's arithmetic over a finite configuration table, table agreement by "
+                  "reachability under fixed discriminants, must-fact dominance, plus the C07 bit-provenance obligations",
+        design="5 C08"),
 }
 
 NA = {
